@@ -219,16 +219,16 @@ def install():
     pg.PcfgGrammar.create_guesses = create_guesses
     orig_restore = pg.PcfgGrammar.restore_omen
 
-    def restore_omen(self, omen_guess_num, pt_item):
+    def restore_omen(self, omen_guess_num, pt_item, *a, **kw):
         ctx = _CUR[0]
         if ctx is None:
-            return orig_restore(self, omen_guess_num, pt_item)
+            return orig_restore(self, omen_guess_num, pt_item, *a, **kw)
         call = [omen_guess_num, ctx.nlines, None]
         ctx.restore_omen_calls.append(call)
         ctx.in_remainder = True
         ctx.omen_start = ctx.nlines
         try:
-            return orig_restore(self, omen_guess_num, pt_item)
+            return orig_restore(self, omen_guess_num, pt_item, *a, **kw)
         finally:
             ctx.in_remainder = False
             ctx.omen_start = None
